@@ -207,6 +207,15 @@ func genNilpatRandom(r *rand.Rand, tier string) string {
 		if !top {
 			st.Form = []string{"n", "n", "n", "a", "as", "p"}[r.Intn(6)]
 		}
+		if r.Intn(3) == 0 {
+			// some values are typed nil pointers (class 5), zero-valued instances or other awkward non-nil values:
+			// they are elements like any other, not gaps
+			for i := range st.Xs {
+				if st.Xs[i].T == 'i' && r.Intn(4) == 0 {
+					st.Xs[i] = []V{{T: 'o', Ty: 5, ID: 1}, {T: 'o', Ty: 20, ID: 3}, {T: 'o', Ty: 3, ID: 1}, {T: 'Z', Form: "n"}, {T: 's', S: ""}}[r.Intn(5)]
+				}
+			}
+		}
 		if d > 0 {
 			// replace some non-nil elements by nested stacks / conditions
 			for i := range st.Xs {
